@@ -238,17 +238,27 @@ Definition refused_ok (i : positive) : bool :=
   end.
 Definition law_refused : bool := forallb refused_ok (sp_refuse sp).
 
-(* 107: after all evictions of the cycle every victim queue keeps its guarantee: the requests of its pods
-   that held resources before the cycle and were not evicted still cover the guarantee, per dimension.
-   (Evaluated for cycles that run reclaim only with the capacity plugin voting in a single-tier layout,
-   where every eviction went through its vote.) *)
+(* 107: after all evictions of the cycle every victim queue keeps its guarantee AS THE SCHEDULER ACCOUNTS IT: the
+   requests of the queue's pods that hold or have been given resources at the end of the cycle - running, bound,
+   binding, allocated, and pods PIPELINED for the queue in this very cycle (the queue plugins' `allocated` counts
+   them from the moment Statement.Pipeline calls the allocate handlers) - still cover the guarantee, per dimension.
+   A pod whose eviction was refused is Running again and counts; an evicted pod (Releasing) does not.
+   (Evaluated for cycles that run reclaim only with the capacity plugin voting in a single-tier layout, where
+   every eviction went through its vote.  The first version of this law counted only the pods that held resources
+   BEFORE the cycle: that is more than the code promises and more than `capacity_vote_keeps_guarantee` proves -
+   thorough-tier case cycle-20085, corpus/C04/guarantee-counts-pipelined.jsonl: queue q1 (guarantee 6500m) first
+   pipelines a 1250m pod of its own, then loses a 1500m pod: 8250 - 1500 = 6750 >= 6500 on the ledger, 5500 in
+   pods that were there before.) *)
 Definition held (t : task_spec) : bool :=
-  match ts_status t with Running | Bound | Binding | Allocated => true | _ => false end.
+  match final_of (ts_id t) with
+  | Some (st, _) => match st with Running | Bound | Binding | Allocated | Pipelined => true | _ => false end
+  | None => false
+  end.
 Definition evicted_ids : list positive := map ev_victim (li_evs L).
 Definition queue_keeps_guarantee (q : queue_spec) : bool :=
-  let mine := filter (fun t => bool_decide (queue_of_task t = Some (qs_id q)) && held t) (sp_tasks sp) in
+  let mine := filter (fun t => bool_decide (queue_of_task t = Some (qs_id q))) (sp_tasks sp) in
   let lost := filter (fun t => bool_decide (ts_id t ∈ evicted_ids)) mine in
-  let rest := filter (fun t => negb (bool_decide (ts_id t ∈ evicted_ids))) mine in
+  let rest := filter held mine in
   match lost with
   | [] => true
   | _ => less_equal (sp_eps sp) (spec_guarantee (qs_id q))
